@@ -110,7 +110,7 @@ def run(c, res):
         case.settles.append(case.settle(max_time=15.0))
         got = set(case.W.net.dial_targets("n0")) - before
         want = base.ref_targets(hints)
-        optional = {(h_, p_) for (h_, p_) in want if base._bad_hostname(h_)} | (want & base._tor_pairs(hints))
+        optional = {(h_, p_) for (h_, p_) in want if base._bad_hostname(h_)}     # (the Connector keeps hints in lists)
         closed = [r for r in case.close_results[0]]
         boss_state = getattr(case.ws[0]._boss, "_trace_state", None)
         if case.state_name(victim) not in ("CONNECTING", "CONNECTED"):
